@@ -5,7 +5,8 @@ LEVEL = "proof"
 RULE = ("exhaustive: every letter-case variant of the 19 transform and 9 entropy names, every 6-bit / 5-bit type value, every chain of 2 names "
         "(every chain of 3 in thorough, a quarter in quick) with random letter case, random chains of 1..9 with NONE fillers, malformed names; "
         "Go GetType/GetName compared with the model instantiated with the tables regenerated from the sources; end to end: lower-case and mixed-case "
-        "spellings must produce exactly the stream of the canonical spelling and decode (variant-sensitive pairs ROLZX, TPAQX, TEXT+TPAQX, RLT/TEXT with fast codecs, chains with NONE). "
+        "spellings must produce exactly the stream of the canonical spelling and decode (variant-sensitive pairs ROLZX, TPAQX, TEXT+TPAQX, RLT/TEXT with fast codecs, chains with NONE incl. NONE+ROLZX / ROLZX+NONE); "
+        "every two-stage chain of {RLT,ZRLT,SRT,RANK,MTFT} x {ROLZX,ROLZ,LZX,LZ,LZP} (both orders, with NONE fillers) must be the composition of its named stages (output and skip flags). "
         "Non-trivial = chain or stream case.")
 
 def check(run):
